@@ -30,6 +30,19 @@ pub assume_specification<'a, T> [core::slice::from_raw_parts] (p: *const T, len:
     ensures forall|seq: Seq<T>, off: int| #[trigger] ptr_within(p, seq, off) && 0 <= off && off + len <= seq.len()
                 ==> r@ == seq.subrange(off, off + len);
 
+// ASSUMED: type invariant of slices: `len * size_of::<T>() <= isize::MAX`, used as `len <= isize::MAX`
+// (true for every non-zero-sized T; slices of zero-sized elements longer than isize::MAX are outside the proofs)
+pub mod k2v_axioms {
+    use vstd::prelude::*;
+    #[verifier::external_body]
+    pub broadcast proof fn axiom_slice_len<T>(s: &[T])
+        ensures #[trigger] s@.len() <= isize::MAX,
+    {
+    }
+}
+
+broadcast use k2v_axioms::axiom_slice_len;
+
 // ---- shared specification vocabulary ------------------------------------------------------------
 pub open spec fn sub<T>(s: Seq<T>, a: int, b: int) -> Seq<T> { s.subrange(a, b) }
 
@@ -72,3 +85,17 @@ pub open spec fn is_last_occ(h: Seq<u8>, n: Seq<u8>, s: int) -> bool {
 pub open spec fn no_occ(h: Seq<u8>, n: Seq<u8>) -> bool {
     forall|j: int| !occurs_at(h, n, j)
 }
+
+// ---- panics -------------------------------------------------------------------------------------
+// k2v rule P1 turns every call into core::panicking (the expansion of panic!/assert!/unreachable!)
+// into `k2v_panic()`.  Reaching it is a failed obligation: verified functions must not panic under
+// their stated preconditions.  ("must panic" copies rename it to a helper with `ensures false`.)
+#[verifier::external_body]
+pub fn k2v_panic() -> !
+    requires false,
+{ unimplemented!() }
+
+#[verifier::external_body]
+pub fn k2v_panic_expected() -> !
+    ensures false,
+{ unimplemented!() }
